@@ -7,6 +7,7 @@ mkdir -p work evidence replays
 echo "[setup] cargo: $(command -v cargo)  tlc: $(command -v tlc)  tla-sany: $(command -v tla-sany)"
 (cd harness && cargo build --offline --quiet --features batch --target-dir target-batch) || { echo "[setup] harness (batch) build failed"; exit 1; }
 (cd harness && cargo build --offline --quiet --target-dir target-nobatch) || { echo "[setup] harness (no batch) build failed"; exit 1; }
+(cd harness && cargo build --offline --quiet --features batch --profile rel --target-dir target-batch) || { echo "[setup] harness (batch, release-like profile) build failed"; exit 1; }
 for m in Trace TraceFn; do
   (cd spec && tla-sany "$m.tla" >/dev/null 2>&1) || { echo "[setup] spec/$m.tla does not parse"; (cd spec && tla-sany "$m.tla" 2>&1 | grep -v "^Parsing\|^Semantic\|^Linting" | tail -15); exit 1; }
 done
